@@ -108,6 +108,11 @@ def floor(tier):
         K = _rand_K(rng, nd, klasses[k % 3])
         a = np.round(rng.normal(size=3), 4)
         out.append(_case(r, K, 0.5 + 0.3 * k, a, np.round(rng.normal(), 3)))
+    # permeability scales far from one
+    for k, sc in enumerate([1e-12, 1e9, 1e-6, 1e11]):
+        r = recs[[0, 3, 1, 2][k] % len(recs)]
+        out.append(_case(r, np.array(_rand_K(rng, r["dim"], klasses[k % 3])) * sc, sc,
+                         np.round(rng.normal(size=3), 4), 0.7))
     # constant pressure, and a gradient normal to an embedded plane (zero flux)
     out.append(_case(recs[2], _rand_K(rng, 2, "full"), 1.0, [0.0, 0.0, 0.0], 2.5))
     out.append(_case({"kind": "tri", "dim": 2, "n": [2, 2], "phys": [1.0, 1.0]},
@@ -123,8 +128,16 @@ def generate(rng, tier, i):
     a = rng.normal(size=3)
     if rng.random() < 0.1:
         a[int(rng.integers(0, 3))] = 0.0
-    return _case(r, _rand_K(rng, nd), np.round(rng.uniform(0.1, 5.0), 4), np.round(a, 5),
-                 np.round(rng.normal() * 3, 4))
+    K = _rand_K(rng, nd)
+    kperp = np.round(rng.uniform(0.1, 5.0), 4)
+    if rng.random() < 0.2:
+        # permeability far from one (SI rock permeabilities are ~1e-15..1e-9; scaled units
+        # give large numbers): exactness and definiteness are scale invariant.  The upper
+        # end is limited in 3-D by an absolute-tolerance consistency assertion of MVEM.
+        sc = 10.0 ** float(rng.choice([-14, -9, -4, 4, 6, 9, 11]))
+        K = K * sc
+        kperp = kperp * sc
+    return _case(r, K, kperp, np.round(a, 5), np.round(rng.normal() * 3, 4))
 
 
 def _frame(recipe):
@@ -197,12 +210,18 @@ def check(case, mon):
         if A.shape != (nf + nc, nf + nc):
             mon.violation(f"{name}:system-shape", {"shape": list(A.shape)})
             continue
-        cond = float(np.linalg.cond(A))
+        # the saddle-point system [[M(1/K), B^T], [B, 0]] is badly SCALED (not ill posed) for
+        # permeabilities far from one: decide solvability and solve in the symmetric
+        # scaling diag(sqrt(k) I_faces, 1/sqrt(k) I_cells), which turns M into k M = O(1)
+        kref = float(np.exp(np.mean(np.log(np.abs(np.diag(np.asarray(case["K"], dtype=float))[:nd])))))
+        S = np.concatenate([np.full(nf, np.sqrt(kref)), np.full(nc, 1.0 / np.sqrt(kref))])
+        As = S[:, None] * A * S[None, :]
+        cond = float(np.linalg.cond(As))
         mon.measure(f"{name}_condition_log10", np.log10(cond) if np.isfinite(cond) else 99.0)
         if not np.isfinite(cond) or cond > 1e12:
             mon.violation(f"{name}:singular-system-with-dirichlet-data", {"cond": cond})
             continue
-        up = np.linalg.solve(A, rhs)
+        up = S * np.linalg.solve(As, S * rhs)
         mon.count(f"solves_{name}")
         tol = 1e-15 * max(cond, 1e6)
         u = solver.extract_flux(g, up, data)
